@@ -263,10 +263,14 @@ def run_case(case):
     obs = []
     given = case.get('events')
     profile = case.get('profile', 'mixed')
-    nev = len(given) if given is not None else case.get('nev', 40)
+    # `extra`: continue a given history with generated events (the directed
+    # search from the state where model and implementation parted)
+    nev = len(given) + case.get('extra', 0) if given is not None else case.get('nev', 40)
     for step in range(nev):
-        if given is not None:
+        if given is not None and step < len(given):
             ev = given[step]
+            if ev[0] in ('reg', 'poll'):
+                nextw[0] = max(nextw[0], ev[1])
         else:
             ev = gen_event(rng, profile, tags, graph, hands, holding, nextw, outs_of, vid, N)
         apply(ev)
